@@ -178,11 +178,15 @@ def step (s : St) (t : Tid) (x : Nat) : Option St :=
   | .px => some { s with pc := upd s.pc t .idle, pn := upd s.pn t false, lret := upd s.lret (s.reg t) true }
 
 /-- `ResourceManager.Inject(key, resource)`: `lock.Lock(); resources[key] = resource; lock.Unlock()` — one atomic
-action with respect to the RW mutex (enabled iff no reader and no writer).  NOT part of `Reach`: the theorems are
-about managers whose map is only written by `GetResource` (Inject after a create trivially hands a second instance
-out, see the example in Props.lean); the correspondence runs use it to pre-register resources before any call. -/
+action with respect to the RW mutex (enabled iff no reader and no writer).  Not part of `Reach`; since round 5 part of
+`ReachI` (ProofsRMX.lean): registrations while no call is in progress, of keys that hold nothing — then every theorem
+holds with the registered resource as the key's instance (`rm_inject_*` in Props.lean).  Inject after a create trivially
+hands a second instance out (example in Props.lean); the correspondence runs pre-register resources before any call. -/
 def inject (s : St) (k : Key) (v : Val) : Option St :=
-  if s.rw = none ∧ s.nrd = 0 then some { s with res := upd s.res k (some v) } else none
+  if s.rw = none ∧ s.nrd = 0 then
+    -- (ghost: the registration counts as the key's one creation, the registered resource is its instance)
+    some { s with res := upd s.res k (some v), ncreate := upd s.ncreate k 1, inst := upd s.inst k v }
+  else none
 
 /-! ### `cacheNode.doTake`'s closure as a decision function (tied to the translated if / else-if tree in `Tie.lean`) -/
 
